@@ -60,6 +60,33 @@ def run(ctx):
         c["pts"] = pts
         cases.append(c)
     _tempo.judge(ctx, cases, "C01", "seeded long tempo maps", queries=_queries)
+    # detours that cancel (round 12, seeded/C01l: an O(1) "never leaves its initial tempo" test that compares only the last
+    # tempo event with the first): the map leaves its first tempo and comes back to it with the last event EXACTLY on the first
+    # tempo's straight line - double time for d ticks, then half time for d / 2 (or the other way round, or twice in a row) -
+    # and everything inside the detour is observed
+    cases = []
+    for k in range(ctx.pick(30, 400)):
+        res = r.choice([192, 480, 96, 100])
+        n0 = r.choice([120000, 90000, 60000, 150000, 100000])
+        a = r.choice([0, 1]) * r.choice([192, 768, 100]) or r.choice([192, 768])
+        d = 2 * r.choice([96, 192, 384, 50, 1000])
+        tempo = [[0, n0]]
+        t = a
+        for rep in range(r.choice([1, 1, 2])):
+            if r.random() < 0.5:
+                tempo += [[t, 2 * n0], [t + d, n0 // 2], [t + d + d // 2, n0]]
+                t = t + d + d // 2 + r.choice([0, 96, 500])
+            else:
+                tempo += [[t, n0 // 2], [t + d // 2, 2 * n0], [t + d // 2 + d, n0]]
+                t = t + d // 2 + d + r.choice([0, 96, 500])
+            if tempo[-1][0] == t:
+                t += 96
+        pts = sorted({0, 1} | {x + e for x, _ in tempo for e in (-1, 0, 1, 7) if x + e >= 0} | {(x[0] + y[0]) // 2 for x, y in zip(tempo, tempo[1:])}
+                     | {tempo[-1][0] + 1000})
+        c = tm.chart_case_from_map(r, f"C01-detour{k}", res, tempo, pts, dense=True)
+        c["pts"] = pts
+        cases.append(c)
+    _tempo.judge(ctx, cases, "C01", "tempo maps whose detours cancel", queries=_queries)
     ctx.assumptions += [
         "float64 is observed, not modelled: the bound is half a microsecond plus 1 ns of float slack per traversed segment, for times below 10^6 s",
         "floor-division witnesses are supplied by the harness and verified by TLC (q*d <= n < (q+1)*d)",
